@@ -138,7 +138,13 @@ def norm_cases(draw):
 def stretch_cases(draw):
     s = draw(stretches())
     ts = draw(st.lists(st.floats(0, 1, allow_nan=False) | st.sampled_from([0.0, 1.0, 0.5, 1e-12]), min_size=1, max_size=12))
-    return {"kind": "stretch", "stretch": s, "t": ts}
+    case = {"kind": "stretch", "stretch": s, "t": ts}
+    if s["type"] != "linear" and draw(st.booleans()):
+        # the stretch classes are plain (mutable) dataclasses: change the parameter on the same
+        # object after its inverse was used once; the declared inverse must follow
+        s2 = draw(stretches().filter(lambda q: q["type"] == s["type"]))
+        case["mutate_to"] = s2["param"]
+    return case
 
 
 # ------------------------------------------------------------------------------------------------
@@ -354,7 +360,7 @@ def check(ctx, case):
 def _check_stretch(ctx, cn, case):
     s = case["stretch"]
     t = np.array(case["t"], dtype=np.float64)
-    ctx.record(case, s["type"] != "linear", ["stretch_roundtrip:" + s["type"]])
+    ctx.record(case, s["type"] != "linear", ["stretch_roundtrip:" + s["type"]] + (["stretch_param_mutated"] if case.get("mutate_to") is not None else []))
     with ctx.sut(case, "stretch / inverse"):
         S = _make_stretch(cn, s)
         Si = S.inverse
@@ -374,6 +380,19 @@ def _check_stretch(ctx, cn, case):
         raise core.Violation("S.inverse.inverse(S.inverse(t)) != t", case)
     if abs(e0[0]) > tol or abs(e0[1] - 1) > tol:
         raise core.Violation("stretch does not fix the end points: S([0,1]) = %r" % e0.tolist(), case)
+    if case.get("mutate_to") is not None:
+        field = "power" if s["type"] == "power" else "a"
+        with ctx.sut(case, "stretch / inverse after changing the parameter"):
+            setattr(S, field, case["mutate_to"])
+            Si2 = S.inverse
+            a2 = np.asarray(S(Si2(t.copy())), dtype=np.float64)
+            b2 = np.asarray(Si2(S(t.copy())), dtype=np.float64)
+        if max(np.max(np.abs(a2 - t)), np.max(np.abs(b2 - t))) > tol:
+            raise core.Violation(
+                "after changing %s from %r to %r on the same stretch object, stretch o inverse is no longer the identity (max err %.3g)"
+                % (field, s["param"], case["mutate_to"], max(np.max(np.abs(a2 - t)), np.max(np.abs(b2 - t)))),
+                case,
+            )
 
 
 def search(ctx):
